@@ -508,6 +508,67 @@ def undefined_frames_and_keepalive(ctx: Ctx) -> None:
                                   f"({b['cause']}); silent control: pings at {a['pings']} / closed at {a['closed']} ({a['cause']})", case, trace=b["trace"])
 
 
+def replies_behind_backlog(ctx: Ctx) -> None:
+    """The device asks (ping, time, ping+time in one chunk) while it is not taking data itself - the client's transport already holds unsent bytes
+    (partially sent frame / nothing accepted at all): the replies queue behind the backlog, the connection stays up, and when the device reads again
+    it gets one matching response per request, in request order, behind everything queued earlier."""
+    res = ctx.res
+    from aioesphomeapi import api_pb2 as pb
+
+    idx = 0
+    for framing in ("plain", "noise"):
+        for first in ("block", ("partial", 900), ("partial", 4090)):
+            for drain in (None, ("rate", 11)):
+                idx += 1
+                if not ctx.mine(idx):
+                    continue
+                with Sim() as sim:
+                    live = Live(sim, framing, record_all=False)
+                    live.ensure()
+                    dconn = live.dconn
+                    n0 = len(dconn.received)
+                    dconn.sock.send_fault = first
+                    live.cli.send_voice_assistant_audio(b"\x09" * 4096)
+                    dconn.sock.send_fault = "block"
+                    asked: list[str] = []
+                    for step, group in enumerate((["PingRequest"], ["GetTimeRequest"], ["PingRequest", "GetTimeRequest", "PingRequest"], ["GetTimeRequest"])):
+                        for name in group:
+                            dconn.send_msg(getattr(pb, name)(), 0.0)
+                            asked.append(name.replace("Request", "Response"))
+                        for _ in range(6):
+                            sim.small_step()
+                        live.cli.switch_command(70 + step, True)      # the application keeps sending in between
+                    up_while_blocked = live.conn.is_connected
+                    dconn.sock.send_fault = drain
+                    for _ in range(1500):
+                        sim.small_step()
+                        if sim.transports[-1].get_write_buffer_size() == 0:
+                            break
+                    dconn.sock.send_fault = None
+                    sim.run_for(0.3)
+                    got = [r["name"] for r in dconn.received[n0:]]
+                    replies = [g for g in got if g in ("PingResponse", "GetTimeResponse")]
+                    cmds = [r["msg"].key for r in dconn.received[n0:] if r["name"] == "SwitchCommandRequest" and r["msg"] is not None]
+                    res.evaluations += 1
+                    res.count("workload/replies-behind-backlog")
+                    res.count("workload/replies-behind-backlog/requests", len(asked))
+                    res.sig("backlog", framing, repr(first), repr(drain))
+                    case = {"framing": framing, "backlog": True, "first": repr(first), "drain": repr(drain)}
+                    v = live.view
+                    if not up_while_blocked or not live.conn.is_connected or v.on_stop or sim.loop_exceptions:
+                        why = repr(v.fatals[0][2]) if v.fatals else (str(sim.loop_exceptions[0])[:200] if sim.loop_exceptions else "?")
+                        res.violation("C12/valid-message-closed-connection", f"{framing}: ping/time requests from a device that is reading slowly ended the connection: {why}; "
+                                      f"on_stop={[x[2] for x in v.on_stop]}", case, trace=sim.trace(30))
+                    elif dconn.decode_errors:
+                        res.violation("C12/backlog/device-decode-error", f"{dconn.decode_errors[:2]}", case, trace=sim.trace(30))
+                    elif replies != asked:
+                        key = "C12/ping-not-answered" if replies.count("PingResponse") != asked.count("PingResponse") else \
+                            "C12/time-not-answered" if replies.count("GetTimeResponse") != asked.count("GetTimeResponse") else "C12/backlog/reply-order"
+                        res.violation(key, f"{framing}: device asked {asked} while it was not reading; after it read again it got {replies}", case, trace=sim.trace(30))
+                    elif cmds != [70, 71, 72, 73]:
+                        res.violation("C12/backlog/later-requests-affected", f"{framing}: commands sent between the replies arrived as keys {cmds}", case, trace=sim.trace(30))
+
+
 def crossing_disconnects(ctx: Ctx) -> None:
     """The device's DisconnectRequest arrives while the client's own disconnect() is waiting for its DisconnectResponse: it is still a peer
     request and must be answered (response first, then an expected close)."""
@@ -718,6 +779,7 @@ def shard(ctx: Ctx) -> None:
     bad_payload_without_subscriber(ctx)
     undefined_frames_and_keepalive(ctx)
     crossing_disconnects(ctx)
+    replies_behind_backlog(ctx)
     id_sweep(ctx)
     histories(ctx)
     peer_requests_during_connect(ctx)
